@@ -36,7 +36,7 @@ func genSmall(t *rapid.T) SmallCase {
 	if h.Thorough() {
 		maxLogN = 7
 	}
-	c.Chain = genChains(t, 3, maxLogN, 1, 5, 1, 3, false)
+	c.Chain = genChains(t, 3, maxLogN, 1, 5, 1, 3, true)
 	c.LevelQ = rapid.IntRange(0, len(c.Chain.Q)-1).Draw(t, "levelQ")
 	c.LevelP = rapid.IntRange(0, len(c.Chain.P)-1).Draw(t, "levelP")
 	c.Mag = []string{"ternary", "gauss", "16bit", "max"}[rapid.IntRange(0, 3).Draw(t, "mag")]
@@ -157,11 +157,12 @@ func runSmall(c SmallCase, rec *h.Rec) error {
 	}
 	rec.Classf("op=%s", name)
 	rec.Classf("mag=%s", c.Mag)
+	rec.Classf("ci=%v", c.Chain.CI)
 	rec.Classf("levelP=%s", lvlClass(c.LevelP, len(c.Chain.P)-1))
 	rec.Classf("Q0=%s", sizeClass(Q[:1]))
 	rec.Classf("tgt=%s", sizeClass(tgt))
 	if c.Mag != "ternary" || c.LevelP < len(c.Chain.P)-1 {
-		rec.NonTrivial(fmt.Sprintf("%s|N=%d|mag=%s|lq=%d|lp=%d/%d|Q0=%s|tgt=%s|inpl=%v", name, N, c.Mag, c.LevelQ, c.LevelP, len(c.Chain.P)-1, sizeClass(Q[:1]), sizeClass(tgt), c.InPlace))
+		rec.NonTrivial(fmt.Sprintf("%s|N=%d|ci=%v|mag=%s|lq=%d|lp=%d/%d|Q0=%s|tgt=%s|inpl=%v", name, N, c.Chain.CI, c.Mag, c.LevelQ, c.LevelP, len(c.Chain.P)-1, sizeClass(Q[:1]), sizeClass(tgt), c.InPlace))
 	}
 	return nil
 }
